@@ -1,6 +1,7 @@
 import Drivers.Common
 import Drivers.OracleD
 import Drivers.GovD
+import Drivers.BankVmD
 /-
   Chain driver: reads the trace of the real application (one JSON object per line),
   runs the model on every operation from the *observed* pre-state, compares the
@@ -24,6 +25,12 @@ structure DS where
   hasCert : Bool := false
   certUnret : List String := []
   stake : Gov.StakeView := default
+  vest : Vesting.Accounts := []
+  staked : List (Addr × Int) := []
+  accounts : List Addr := []
+  hasVest : Bool := false
+  cvm : Cvm.State := default
+  hasCvm : Bool := false
   -- C14 ghost ledger (from observations only)
   dep : List (Addr × Coins) := []
   ret : List (Addr × Coins) := []
@@ -55,7 +62,11 @@ def loadObs (ds : DS) (st : Json) : DS := Id.run do
   if J.has st "oracle" then ds := { ds with oracle := OracleD.parseState (J.get st "oracle"), hasOracle := true }
   if J.has st "gov" then ds := { ds with gov := GovD.parseGov (J.get st "gov"), hasGov := true }
   if J.has st "cert" then ds := { ds with cert := GovD.parseCert (J.get st "cert"), hasCert := true, certUnret := GovD.unretrievable (J.get st "cert") }
-  if J.has st "staking" then ds := { ds with stake := GovD.parseStake (J.get st "staking") }
+  if J.has st "staking" then ds := { ds with stake := GovD.parseStake (J.get st "staking"), staked := BankVmD.stakedOf (J.get st "staking") }
+  if J.has st "vesting" then
+    let (vs, accts) := BankVmD.parseVesting (J.get st "vesting")
+    ds := { ds with vest := vs, accounts := accts, hasVest := true }
+  if J.has st "cvm" then ds := { ds with cvm := BankVmD.parseCvm (J.get st "cvm"), hasCvm := true }
   return ds
 
 def oracleEnv (ds : DS) : Oracle.Env := { h := ds.h, t := ds.t, bond := "uctk", modAddr := ds.sys.modAddr "oracle" }
@@ -67,6 +78,9 @@ structure MW where
   o : Oracle.State
   g : Gov.State
   c : Cert.State
+  v : Vesting.Accounts := []
+  k : Cvm.State := default
+  accts : List Addr := []
 
 def proposalOfMsg (m : Json) : Gov.Proposal :=
   { id := 0, kind := J.strOf m "kind", cuCertifier := J.strOf m "certifier", cuAlias := J.strOf m "alias", cuAdd := J.boolOf m "add",
@@ -102,6 +116,34 @@ def applyMsg (ds : DS) (stake : Gov.StakeView) (w : MW) (m : Json) : Option (Exc
   | "cert.issue" => some ((Cert.issue w.c (J.strOf m "certifier") (J.strOf m "kind") (J.strOf m "content")).map (fun c' => { w with c := c' }))
   | "cert.revoke" => some ((Cert.revoke w.c (J.strOf m "revoker") (J.intOf m "id").toNat).map (fun c' => { w with c := c' }))
   | "cert.platform" => some ((Cert.certifyPlatform w.c (J.strOf m "certifier") (J.strOf m "pubkey64") (J.strOf m "platform")).map (fun c' => { w with c := c' }))
+  | "bank.send" =>
+    let src := J.strOf m "from"; let dst := J.strOf m "to"; let amt := J.coinsOf m "amt"
+    if Cvm.kindAt w.k dst != "none" then
+      some ((Cvm.sendToContract "uctk" w.l w.v w.k src dst amt).map (fun (l, k) => { w with l := l, k := k }))
+    else some ((Vesting.send w.l w.v src dst amt).map (fun l => { w with l := l }))
+  | "bank.multisend" =>
+    let src := J.strOf m "from"
+    let outs := (J.arrOf m "outs").map (fun o => match J.arr o with | [a, x] => (J.str a, J.int x) | _ => ("", 0))
+    if outs.any (fun o => Cvm.kindAt w.k o.1 != "none") then some (.error ⟨"bank:code-exists"⟩)
+    else
+      let total : Coins := [("uctk", outs.foldl (fun acc o => acc + o.2) 0)]
+      some ((Vesting.canSpend w.l w.v src total).map (fun _ =>
+        { w with l := outs.foldl (fun l o => l.credit o.1 [("uctk", o.2)]) (w.l.debit src total) }))
+  | "bank.lockedSend" =>
+    some ((Vesting.lockedSend w.l w.v (fun a => w.accts.contains a && (Vesting.find w.v a).isNone) (J.strOf m "from") (J.strOf m "to")
+            (J.strOf m "unlocker") (J.coinsOf m "amt")).map (fun (l, v) => { w with l := l, v := v }))
+  | "auth.unlock" =>
+    some ((Vesting.unlock w.v (fun a => w.accts.contains a) (J.strOf m "issuer") (J.strOf m "account") (J.coinsOf m "amt")).map (fun v => { w with v := v }))
+  | "cvm.deploy" =>
+    if J.strOf m "newAddr" == "" then none   -- a failed deployment: the address is not known to the trace; compared as "nothing changes"
+    else some ((Cvm.deploy "uctk" w.l w.v w.k (J.strOf m "caller") (J.strOf m "newAddr") (J.strOf m "code") (J.intOf m "value")).map (fun (l, k) => { w with l := l, k := k }))
+  | "cvm.call" =>
+    let data := J.strOf m "data"
+    let w0 := (data.take 64).toString
+    let isZero := w0.toList.all (· == '0')
+    let target := if data.length ≥ 64 then ((w0.drop 24).toString) else ""
+    some ((Cvm.call "uctk" w.l w.v w.k (J.strOf m "caller") (J.strOf m "callee") (J.intOf m "value") w0 (isZero || data == "") target (data != "")).map
+      (fun (l, k) => { w with l := l, k := k }))
   | _ => none
 
 def applyMsgs (ds : DS) (stake : Gov.StakeView) : List Json → MW → Option (Except Err MW)
@@ -124,6 +166,8 @@ def propOfKind (kind : String) : String :=
   else if kind.startsWith "gov.submit" then "C11,C12"
   else if kind.startsWith "gov." then "C12"
   else if kind.startsWith "cert." then "C13"
+  else if kind.startsWith "cvm." || kind.startsWith "failed:cvm." then "C18"
+  else if kind.startsWith "bank.lockedSend" || kind.startsWith "auth." then "C19"
   else "C01"
 
 /-- compare the model's world with the observed one; one finding per differing fact -/
@@ -138,6 +182,12 @@ def compareWorld (ds : DS) (tag : String) (w : MW) (skipAccts : List Addr) : IO 
   if ds.hasCert then
     for x in GovD.diffFacts (GovD.certFacts w.c) (GovD.certFacts ds.cert) do
       ds ← finding ds "diverge" "C13" s!"state:{tag}" x
+  if ds.hasVest then
+    for x in BankVmD.diffFacts (BankVmD.vestingFacts w.v) (BankVmD.vestingFacts ds.vest) do
+      ds ← finding ds "diverge" "C19" s!"state:{tag}" x
+  if ds.hasCvm then
+    for x in BankVmD.diffFacts (BankVmD.cvmFacts w.k) (BankVmD.cvmFacts ds.cvm) do
+      ds ← finding ds "diverge" "C18" s!"state:{tag}" x
   for x in balDiffs w.l ds.ledger skipAccts do
     ds ← finding ds "diverge" (propOfKind tag ++ ",C01") s!"balance:{tag}" x
   return ds
@@ -177,6 +227,15 @@ def runMonitors (ds : DS) (afterBegin boundary : Bool) : IO DS := do
     if boundary then
       for x in GovD.monNoOrphanDeposit g do ds ← finding ds "monitor" "C11" "no_deposit_after_end" x
     for x in GovD.monDepositSum g do ds ← finding ds "monitor" "C11" "deposit_records_sum" x
+  -- C01: balances add up to the recorded supply, in every denomination
+  ds := stat ds "mon.c01.ledger"
+  if !ds.ledger.invB then
+    let bad := (ds.ledger.denomsAll.filter (fun d => ds.ledger.total d != Coins.amountOf ds.ledger.supply d)).map (fun d =>
+      s!"{d}: balances {ds.ledger.total d} supply {Coins.amountOf ds.ledger.supply d}")
+    ds ← finding ds "monitor" "C01" "balances_equal_supply" (String.intercalate "; " bad)
+  if ds.hasVest then
+    for x in BankVmD.monLockedAccountedFor "uctk" ds.ledger ds.vest ds.staked do ds ← finding ds "monitor" "C19" "locked_coins_present" x
+    for x in BankVmD.monVestedLeOriginal ds.vest do ds ← finding ds "monitor" "C19" "unlocked_le_locked" x
   if ds.hasCert then
     let c := ds.cert
     for x in GovD.monAliasUnique c do ds ← finding ds "monitor" "C13" "alias_unique" x
@@ -222,7 +281,7 @@ def transitionMonitors (ds : DS) (preG : Gov.State) (preC : Cert.State) (isEnd :
   return noteStatuses ds
 
 def handleTx (ds : DS) (j : Json) : IO DS := do
-  let pre : MW := { l := ds.ledger, o := ds.oracle, g := ds.gov, c := ds.cert }
+  let pre : MW := { l := ds.ledger, o := ds.oracle, g := ds.gov, c := ds.cert, v := ds.vest, k := ds.cvm, accts := ds.accounts }
   let preStake := ds.stake
   let signer := J.strOf j "signerAddr"
   let fee : Coins := if J.intOf j "fee" > 0 then [("uctk", J.intOf j "fee")] else []
@@ -231,9 +290,11 @@ def handleTx (ds : DS) (j : Json) : IO DS := do
   let kind := String.intercalate "+" (msgs.map (J.strOf · "t"))
   let mut ds := loadObs ds (J.get j "st")
   ds := stat ds s!"tx.{kind}.{if code == 0 then "ok" else "fail"}"
-  -- ante: fee deduction
+  -- ante: fee deduction (from spendable coins; an account that does not exist or cannot pay fails before any message runs)
   let lFee := pre.l.move signer (ds.sys.modAddr "fee_collector") fee
-  match applyMsgs ds preStake msgs { pre with l := lFee } with
+  let anteOk := match Vesting.canSpend pre.l pre.v signer fee with | .ok _ => true | .error _ => false
+  let anteOk := anteOk && (!ds.hasVest || pre.accts.contains signer)
+  match (if anteOk then applyMsgs ds preStake msgs { pre with l := lFee } else some (.error ⟨"basic:ante"⟩)) with
   | none => ds := stat ds "tx.unmodelled"
   | some r =>
     ds := stat ds "tx.validated"
@@ -297,11 +358,44 @@ def handleTx (ds : DS) (j : Json) : IO DS := do
     for x in pre.c.certs do
       if !(revoked.contains x.id) && !(ds.cert.certs.any (fun y => y == x)) then
         ds ← finding ds "monitor" "C13" "certificate_retrievable" s!"certificate {x.id} ({x.kind},{x.content},{x.certifier}) disappeared or changed"
+  if ds.hasVest then
+    for x in BankVmD.monUnlockerImmutable pre.v ds.vest do ds ← finding ds "monitor" "C19" "unlocker_immutable" x
+    for x in BankVmD.monMonotone pre.v ds.vest do ds ← finding ds "monitor" "C19" "vesting_monotone" x
+    -- the unlocked total changes only by an unlock signed by the designated unlocker (or a shield payout)
+    for m0 in pre.v do
+      match ds.vest.find? (·.addr == m0.addr) with
+      | some m1 =>
+        if !(Coins.beq m0.vested m1.vested) then
+          let okUnlock := code == 0 && msgs.any (fun m => J.strOf m "t" == "auth.unlock" && J.strOf m "account" == m0.addr && J.strOf m "issuer" == m0.unlocker && signer == m0.unlocker)
+          if !okUnlock then ds ← finding ds "monitor" "C19" "only_unlocker_unlocks" s!"{m0.addr}: vested {Coins.toStr m0.vested}->{Coins.toStr m1.vested} by {kind} signed {signer}"
+      | none => pure ()
+  if ds.hasCvm then
+    for m in msgs do
+      if J.strOf m "t" == "cvm.call" then
+        ds := stat ds s!"sit.c18.call.{J.strOf m "kind"}.{if code == 0 then "ok" else "fail"}"
+        -- a call into a program that reverts / aborts / loops must be reported as failed
+        if J.strOf m "expect" == "fail" && code == 0 then
+          ds ← finding ds "monitor" "C18" "failure_reported" s!"call to a {J.strOf m "kind"} contract returned code 0"
+        -- LOG events of a reverted inner call must not appear in the transaction's events
+        if code == 0 && J.strOf m "targetKind" == "logRevert" && (J.arrOf j "logs").any (fun a => J.str a == J.strOf m "target") then
+          ds ← finding ds "monitor" "C18" "reverted_inner_call_leaves_event" s!"LOG of reverted inner call to {J.strOf m "target"} persisted"
+    if code != 0 && !(J.arrOf j "logs").isEmpty then
+      ds ← finding ds "monitor" "C18" "failed_tx_leaves_event" (Json.arr (J.arrOf j "logs").toArray).compress
   ds ← transitionMonitors ds pre.g pre.c false
   runMonitors ds false false
 
+def handleView (ds : DS) (j : Json) : IO DS := do
+  -- a read-only execution: no observed module may have changed
+  let mut ds := stat ds "sit.c18.view"
+  match J.get j "st" with
+  | .obj kvs =>
+    for (k, _) in kvs.toList do
+      ds ← finding ds "monitor" "C18" "view_modifies_state" s!"module {k} changed by a read-only execution of a {J.strOf j "kind"} contract"
+  | _ => pure ()
+  return loadObs ds (J.get j "st")
+
 def handleBegin (ds : DS) (j : Json) : IO DS := do
-  let pre : MW := { l := ds.ledger, o := ds.oracle, g := ds.gov, c := ds.cert }
+  let pre : MW := { l := ds.ledger, o := ds.oracle, g := ds.gov, c := ds.cert, v := ds.vest, k := ds.cvm, accts := ds.accounts }
   let mut ds := { ds with h := J.intOf j "h", t := J.intOf j "t" }
   if J.has j "panic" then
     ds ← finding ds "panic" "C08" ("begin:" ++ J.strOf (J.get j "panic") "site") (J.strOf (J.get j "panic") "value")
@@ -323,7 +417,7 @@ def handleBegin (ds : DS) (j : Json) : IO DS := do
   runMonitors ds true false
 
 def handleEnd (ds : DS) (j : Json) : IO DS := do
-  let pre : MW := { l := ds.ledger, o := ds.oracle, g := ds.gov, c := ds.cert }
+  let pre : MW := { l := ds.ledger, o := ds.oracle, g := ds.gov, c := ds.cert, v := ds.vest, k := ds.cvm, accts := ds.accounts }
   let mut ds := ds
   if J.has j "panic" then
     ds ← finding ds "panic" "C08" ("end:" ++ J.strOf (J.get j "panic") "site") (J.strOf (J.get j "panic") "value")
@@ -440,6 +534,7 @@ partial def loop (hIn : IO.FS.Stream) (ds : DS) : IO DS := do
       | "tx" => handleTx ds j
       | "begin" => handleBegin ds j
       | "end" => handleEnd ds j
+      | "view" => handleView ds j
       | _ => pure ds
     loop hIn ds
 
